@@ -35,6 +35,11 @@ def run(ctx, rep):
     rep.rule("H9", "checks and simulations that compute one value per sample size / repetition collect it inside the loop that computes it "
                    "(a list created before the loop and filled after it keeps the last value only)", floor=3)
     _h9(ctx, rep)
+    rep.rule("H10", "simulation and noise-generation settings hand the stream they receive to every callee that draws (rule G5 of C14 on "
+                    "quara.simulation)", floor=5)
+    from ..report import Relay
+    from .c14 import _g5
+    _g5(ctx, Relay(rep, {"G5": "H10"}, keep=lambda f_, con_: "quara.simulation" in (getattr(f_, "qualname", None) or str(f_))), sd)
     rep.stats["seed_sinks"] = sorted("%s(%s)" % (q.split(".")[-1], p) for q, p in sd.sinks)[:60]
     _h1_h2(ctx, rep, sd)
     _h3(ctx, rep, sd)
